@@ -355,12 +355,18 @@ class SemLifter:
         if bad:
             raise Unliftable(where, "a path ends in a %s" % bad[0].kind)
         tree = self.build(sm.leaves + sm.loopbacks, entry, where)
-        saved = self.__dict__.get("_rest_memo")
-        self._rest_memo = {}
+        saved = (self.__dict__.get("_rest_memo"), self.__dict__.get("_rest_objs"), self.__dict__.get("_alt_objs"))
+        self._rest_memo, self._rest_objs, self._alt_objs = {}, {}, {}
         try:
-            return canon(self.lift_tree(tree, "ENTRY", entry, where))
+            t = canon(self.lift_tree(tree, "ENTRY", entry, where))
+            # what the plumbing lifter needs of this unit
+            self.__dict__.setdefault("units", {})[(path, entry)] = {"sm": sm, "tree": tree, "rest_objs": self._rest_objs, "entry": entry,
+                                                                    "mode": self.__dict__.get("_modes", {}).get(id(tree))}
+            return t
         finally:
-            self._rest_memo = saved if saved is not None else {}
+            self._rest_memo = saved[0] if saved[0] is not None else {}
+            self._rest_objs = saved[1] if saved[1] is not None else {}
+            self._alt_objs = saved[2] if saved[2] is not None else {}
 
     def rest(self, node, cur, S, entry, where):
         """The remainder of a unit from `node`, the state reached being `cur` (S = the unit's own entry state):
@@ -384,13 +390,15 @@ class SemLifter:
     def _rest(self, node, cur, S, entry, where):
         # --- one item at this position, then the remainder after it
         last_ex = None
-        for (term, okn, oks, fails) in self.first_items(node, cur, S, entry, where):
+        for (term, okn, oks, fails, obj) in self.first_items(node, cur, S, entry, where):
             try:
                 r = self.rest(okn, oks, S, entry, where)
                 modes = [self.fail_mode(n, e, cur, S, entry, where) for (n, e) in fails]
             except Unliftable as ex:
                 last_ex = ex
                 continue
+            objs = self.__dict__.setdefault("_rest_objs", {})
+            objs[(id(node), cur, S)] = [obj] + objs.get((id(okn), oks, S), [])
             return ([term] + r[0], modes + r[1], r[2])
         if last_ex is not None:
             raise last_ex
@@ -416,7 +424,7 @@ class SemLifter:
     def atom(self, node, cur, where):
         if node is not None and node.type == "call" and node.sarg == cur:
             ok, er = self.outcomes(node, where)
-            return (self.term_of_call(node, where), ok, ("ok", node.k), [(er, ("err", node.k))])
+            return (self.term_of_call(node, where), ok, ("ok", node.k), [(er, ("err", node.k))], ("atom", node))
         return None
 
     def first_items(self, node, cur, S, entry, where):
@@ -432,16 +440,9 @@ class SemLifter:
         memo[key] = [self.atom(node, cur, where)]      # re-entrant requests see the plain reading only
         if True:
             if True:
-                # ordered choice: alternatives tried one after the other, failures recorded, every success continuing alike
-                try:
-                    alts, K, okn, oks, fin = self.alt_rest(node, cur, S, entry, where, cur)
-                except Unliftable:
-                    alts = None
-                if alts is not None and len(alts) >= 2 and K is not None:
-                    out.append((("choice", tuple(alts)), okn, oks, [fin] if fin is not None else []))
                 # optional group: a run of items whose failures all continue exactly like the run's success, from the run's
                 # start state with the failure recorded
-                for (terms, okn, oks, fails) in self.prefixes(node, cur, S, entry, where):
+                for (terms, okn, oks, fails, pobjs) in self.prefixes(node, cur, S, entry, where):
                     if not fails:
                         continue
                     try:
@@ -450,8 +451,16 @@ class SemLifter:
                     except Unliftable:
                         good = False
                     if good:
-                        out.append((("opt", canon(("seq", tuple(terms)))), okn, oks, []))
+                        out.append((("opt", canon(("seq", tuple(terms)))), okn, oks, [], ("opt", pobjs)))
                         break
+                # ordered choice: alternatives tried one after the other, failures recorded, every success continuing alike
+                try:
+                    alts, K, okn, oks, fin = self.alt_rest(node, cur, S, entry, where, cur)
+                except Unliftable:
+                    alts = None
+                if alts is not None and len(alts) >= 2 and K is not None:
+                    arms = self.__dict__.setdefault("_alt_objs", {}).get(("alt", id(node), cur, S, cur), [])
+                    out.append((("choice", tuple(alts)), okn, oks, [fin] if fin is not None else [], ("choice", arms)))
         out.append(self.atom(node, cur, where))
         memo[key] = out
         return out
@@ -459,7 +468,7 @@ class SemLifter:
     def prefixes(self, node, cur, S, entry, where, limit=10):
         """Growing runs of items from `node`: (terms, ok node, ok state, accumulated failure exits).  Inside a run the first
         viable reading of each item is taken (composite before plain)."""
-        terms, fails = [], []
+        terms, fails, objs = [], [], []
         n, c = node, cur
         for _ in range(limit):
             item = None
@@ -475,11 +484,12 @@ class SemLifter:
                     # that recursion is cut by the depth counter in first_items
             if item is None:
                 return
-            term, okn, oks, fl = item
+            term, okn, oks, fl, obj = item
             terms = terms + [term]
             fails = fails + list(fl)
+            objs = objs + [obj]
             n, c = okn, oks
-            yield (list(terms), okn, oks, list(fails))
+            yield (list(terms), okn, oks, list(fails), list(objs))
 
     def alt_rest(self, node, st, S, entry, where, start):
         """(alternatives, K, ok node, ok state, final failure exit): from `node`, reached with state `st`, alternatives are tried
@@ -508,7 +518,7 @@ class SemLifter:
     def _alt_rest(self, node, st, S, entry, where, start):
         last_ex = None
         any_prefix = False
-        for (terms, okn, oks, fails) in self.prefixes(node, st, S, entry, where):
+        for (terms, okn, oks, fails, pobjs) in self.prefixes(node, st, S, entry, where):
             any_prefix = True
             try:
                 K = self.rest(okn, oks, S, entry, where)
@@ -529,7 +539,19 @@ class SemLifter:
             except Unliftable as ex:
                 last_ex = ex
                 continue
-            return self._maybe_nested(([canon(("seq", tuple(terms)))] + tails[0], K, okn, oks, tails[1]), st, S, entry, where, start)
+            # structure for the plumbing lifter: this alternative's items, then those of the alternatives after it (taken from
+            # the continuation of this alternative's first failure exit)
+            ao = self.__dict__.setdefault("_alt_objs", {})
+            n0, e0 = fails[0]
+            this_key = ("alt", id(node), st, S, start)
+            ao[this_key] = [(pobjs, canon(("seq", tuple(terms))))] + ao.get(("alt", id(n0), ("rec", st, e0), S, start), [])
+            pre = ([canon(("seq", tuple(terms)))] + tails[0], K, okn, oks, tails[1])
+            res = self._maybe_nested(pre, st, S, entry, where, start)
+            if res is not pre and tails[1] is not None:
+                # the alternatives read here are a parenthesised group followed by the alternatives of the enclosing choice
+                n_f, E_f = tails[1]
+                ao[this_key] = ao[this_key] + ao.get(("alt", id(n_f), ("rec", st, E_f), S, start), [])
+            return res
         if not any_prefix:
             # an alternative that consumes nothing and cannot fail (`| )`): the choice continues from the state reached so far
             if node is not None and node.type in ("ret", "vret", "loopback"):
@@ -538,6 +560,7 @@ class SemLifter:
                 except Unliftable:
                     K0 = None
                 if K0 is not None and K0[0] == [] and K0[2] in ("consume", "again"):
+                    self.__dict__.setdefault("_alt_objs", {})[("alt", id(node), st, S, start)] = [([], ("empty",))]
                     return [("empty",)], K0, node, st, None
             # no alternative left: the choice as a whole fails with the farthest recorded failure
             return [], None, None, None, (node, ("farthest", st))
@@ -627,6 +650,7 @@ class SemLifter:
         if len(kinds) != 1:
             raise Unliftable(where, "failures of the parser calls leave in different ways: %s" % sorted(k[0] for k in kinds))
         mode = kinds.pop()
+        self.__dict__.setdefault("_modes", {})[id(node)] = (mode[0], end_kind)
         if mode[0] == "propagate" and end_kind == "consume":
             return body
         if mode[0] == "propagate" and end_kind == "peek":
